@@ -30,6 +30,10 @@ Part 6: delete-index: for EVERY history of create / delete requests (any strings
         candidate names) every directory removed is inside the data dir (`confined_index_history`); without the
         membership test it is not (`deleteIndexNoGate_counterexample`).
 
+Part 7: COLUMN names (JSON keys of events, sort-columns requests, sort columns of queries): the sort index file of EVERY
+        column name is inside the data dir (`confined_sortindex`; before the repair it was not: `sortIndexFileOld_counterexample`);
+        every other per-column file carries a hash of the name (`confined_hashedColumnFile`, for every hash function).
+
 NOT proved: that this list of builders is complete (a listing aid, not a theorem; narrowed by the end-to-end suite `confine`,
 which drives every name-carrying route of a real server inside a sandbox); symlinks (the model is lexical).
 -/
@@ -591,5 +595,61 @@ theorem deleteIndexNoGate_counterexample : ¬ ConfinedNoGate := by
 
 example : (runIndexOps [['d']] ['H'] [] [.create "logs".toList, .create "../x".toList, .delete ["logs".toList, "../../../victim".toList]]) =
     ([⟨true, [['d'], ['H'], "final".toList, "logs".toList]⟩], []) := by decide
+
+/-! ## Part 7 — column names -/
+
+def autoSrt : Str := "_auto.srt".toList
+
+/-- C19.7a  the sort index file BEFORE the repair (column name joined to the segment directory unchecked): the full statement
+    was FALSE — the column `../../../../../../../x` put x_auto.srt beside the data dir. -/
+theorem sortIndexFileOld_counterexample : ¬ ConfinedDH (fun d H v => sortIndexFileOld d H autoSrt v) := by
+  intro h
+  exact absurd (h [['d']] ['H'] "../../../../../../../x".toList ⟨true, ["x_auto.srt".toList]⟩ setup_example (by decide)) (by decide)
+
+theorem sortIndexFileOld_partial (d : List Seg) (H : Seg) (hs : Setup d H) (suf : Str) (hsuf : noSlash suf) (v : Str) (hg : Guard v)
+    (p : NPath) (h : sortIndexFileOld d H suf v = some p) : within (dataDir d) p := by
+  unfold sortIndexFileOld at h
+  simp at h; subst h
+  have hH := hs.2
+  exact Lemmas.C19.confined_core d hs.1 [H, "final".toList, IDX, SID, ['0'], ['0']] [] (v ++ suf)
+    (Lemmas.C19.noSlash_append hg hsuf)
+    (by intro s hm; simp at hm; rcases hm with hm | hm | hm | hm | hm | hm <;> subst hm <;> first | exact hH.2.2.2 | decide)
+    (by simp) 5
+    (by rw [Lemmas.C19.walk_plain hH, Lemmas.C19.walk_plain (by decide), Lemmas.C19.walk_plain (by decide),
+          Lemmas.C19.walk_plain (by decide), Lemmas.C19.walk_plain (by decide), Lemmas.C19.walk_plain (by decide)]; rfl)
+
+/-- C19.7b  confined_sortindex: for EVERY column name (event key, sort-columns request, sort column of a query) and every
+    suffix without a separator, the sort index file that is written, stat'ed or opened is inside the data dir. -/
+theorem confined_sortindex (suf : Str) (hsuf : noSlash suf) : ConfinedDH (fun d H v => sortIndexFile d H suf v) := by
+  intro d H v p hs h
+  simp only [sortIndexFile] at h
+  split at h
+  · rename_i hv; exact sortIndexFileOld_partial d H hs suf hsuf v (simpleName_guard hv) p h
+  · simp at h
+
+theorem sortIndexFile_is_pipe (d : List Seg) (H : Seg) (suf v : Str) : sortIndexFile d H suf v = (sortIndexPipe d H suf).run v := by
+  unfold sortIndexFile sortIndexFileOld Pipe.run sortIndexPipe
+  by_cases hv : simpleName v = true <;> simp [hv]
+
+/-- C19.7c  every other per-column file is named by the decimal print of a hash of the column name: whatever the column is
+    called and whatever the hash function, the file is inside the data dir. -/
+theorem confined_hashedColumnFile (d : List Seg) (H : Seg) (hs : Setup d H) (hash : Str → Nat) (ext : Str) (hext : noSlash ext)
+    (v : Str) : within (dataDir d) (hashedColumnFile d H hash ext v) := by
+  unfold hashedColumnFile
+  have hH := hs.2
+  have hdig : '/' ∉ Nat.toDigits 10 (hash v) := by
+    intro hm
+    have := Nat.isDigit_of_mem_toDigits (b := 10) (by decide) (by decide) hm
+    simp [Char.isDigit] at this
+  exact Lemmas.C19.confined_core d hs.1 [H, "final".toList, IDX, SID, ['0']] [] (['0', '_'] ++ (Nat.toDigits 10 (hash v)) ++ ext)
+    (Lemmas.C19.noSlash_append (Lemmas.C19.noSlash_append (by decide) hdig) hext)
+    (by intro s hm; simp at hm; rcases hm with hm | hm | hm | hm | hm <;> subst hm <;> first | exact hH.2.2.2 | decide)
+    (by simp) 4
+    (by rw [Lemmas.C19.walk_plain hH, Lemmas.C19.walk_plain (by decide), Lemmas.C19.walk_plain (by decide),
+          Lemmas.C19.walk_plain (by decide), Lemmas.C19.walk_plain (by decide)]; rfl)
+
+example : sortIndexFile [['d']] ['H'] autoSrt "latency".toList =
+    some ⟨true, [['d'], ['H'], "final".toList, IDX, SID, ['0'], ['0'], "latency_auto.srt".toList]⟩ := by decide
+example : sortIndexFile [['d']] ['H'] autoSrt "../x".toList = none ∧ sortIndexFile [['d']] ['H'] autoSrt "a/b".toList = none := by decide
 
 end SigModel.Props.C19
